@@ -191,6 +191,58 @@ impl serde::Serialize for DM {
         }
     }
 }
+/// Recording visitor: the stream of serde visit_* events a Deserializer produces, as JSON (for the crate's Variable and for serde_json::Value)
+#[derive(Clone, Copy)]
+struct Rec { enum_mode: bool }
+impl<'de> serde::de::DeserializeSeed<'de> for Rec {
+    type Value = Value;
+    fn deserialize<D: serde::Deserializer<'de>>(self, d: D) -> Result<Value, D::Error> { d.deserialize_any(self) }
+}
+impl<'de> serde::de::Visitor<'de> for Rec {
+    type Value = Value;
+    fn expecting(&self, f: &mut std::fmt::Formatter) -> std::fmt::Result { f.write_str("anything") }
+    fn visit_unit<E>(self) -> Result<Value, E> { Ok(json!(["unit"])) }
+    fn visit_none<E>(self) -> Result<Value, E> { Ok(json!(["none"])) }
+    fn visit_bool<E>(self, v: bool) -> Result<Value, E> { Ok(json!(["bool", v])) }
+    fn visit_u64<E>(self, v: u64) -> Result<Value, E> { Ok(json!(["u64", v.to_string()])) }
+    fn visit_i64<E>(self, v: i64) -> Result<Value, E> { Ok(json!(["i64", v.to_string()])) }
+    fn visit_f64<E>(self, v: f64) -> Result<Value, E> { Ok(json!(["f64", format!("{:016x}", v.to_bits())])) }
+    fn visit_str<E>(self, v: &str) -> Result<Value, E> { Ok(json!(["str", v])) }
+    fn visit_some<D: serde::Deserializer<'de>>(self, d: D) -> Result<Value, D::Error> { Ok(json!(["some", d.deserialize_any(self)?])) }
+    fn visit_newtype_struct<D: serde::Deserializer<'de>>(self, d: D) -> Result<Value, D::Error> { Ok(json!(["newtype", d.deserialize_any(self)?])) }
+    fn visit_seq<A: serde::de::SeqAccess<'de>>(self, mut a: A) -> Result<Value, A::Error> { let mut out = vec![]; while let Some(x) = a.next_element_seed(self)? { out.push(x); } Ok(json!(["seq", out])) }
+    fn visit_map<A: serde::de::MapAccess<'de>>(self, mut a: A) -> Result<Value, A::Error> { let mut out = vec![]; while let Some(k) = a.next_key_seed(self)? { let v = a.next_value_seed(self)?; out.push(json!([k, v])); } Ok(json!(["map", out])) }
+}
+/// the four variant access forms, each tried on its own deserialisation of the value
+struct EnumRec { form: u8 }
+impl<'de> serde::de::Visitor<'de> for EnumRec {
+    type Value = Value;
+    fn expecting(&self, f: &mut std::fmt::Formatter) -> std::fmt::Result { f.write_str("enum") }
+    fn visit_enum<A: serde::de::EnumAccess<'de>>(self, a: A) -> Result<Value, A::Error> {
+        use serde::de::VariantAccess;
+        let (name, va) = a.variant_seed(Rec { enum_mode: false })?;
+        let r = match self.form {
+            0 => va.unit_variant().map(|_| json!(["ok"])),
+            1 => va.newtype_variant_seed(Rec { enum_mode: false }).map(|v| json!(["ok", v])),
+            2 => va.tuple_variant(2, Rec { enum_mode: false }).map(|v| json!(["ok", v])),
+            _ => va.struct_variant(&[], Rec { enum_mode: false }).map(|v| json!(["ok", v])),
+        };
+        Ok(json!([name, r.unwrap_or_else(|_| json!(["err"]))]))
+    }
+}
+fn record<'de, D: serde::Deserializer<'de> + Clone>(d: D, entry: &str) -> Value where D::Error: std::fmt::Display {
+    let r = Rec { enum_mode: false };
+    match entry {
+        "any" => d.deserialize_any(r).unwrap_or_else(|_| json!("ERR")),
+        "option" => d.deserialize_option(r).unwrap_or_else(|_| json!("ERR")),
+        "newtype" => d.deserialize_newtype_struct("N", r).unwrap_or_else(|_| json!("ERR")),
+        _ => {
+            let mut forms = vec![];
+            for f in 0..4u8 { forms.push(d.clone().deserialize_enum("E", &[], EnumRec { form: f }).unwrap_or_else(|_| json!("ERR"))); }
+            json!(forms)
+        }
+    }
+}
 fn value_tagged(v: &Value) -> Value {
     match v {
         Value::Number(n) => { if let Some(u) = n.as_u64() { json!({"$u": u.to_string()}) } else if let Some(i) = n.as_i64() { json!({"$i": i.to_string()}) } else { json!({"$f": format!("{:016x}", n.as_f64().unwrap().to_bits())}) } }
@@ -269,6 +321,15 @@ fn handle(req: &Value) -> Value {
                     json!({"kind": "ok", "printed": printed, "equal": eq})
                 }
             }
+        }
+        "deser" => {
+            // the visit_* event stream of the crate's Deserializer for a Variable vs serde_json's for the same JSON value
+            let var = to_var(&req["value"]);
+            let val: Value = serde_json::to_value(&*var).unwrap();
+            let entry = req["entry"].as_str().unwrap();
+            let a = record((*var).clone(), entry);
+            let b = record(val, entry);
+            json!({"kind": "ok", "equal": a == b, "library": a, "serde_json": b})
         }
         "from_json" => match Variable::from_json(req["text"].as_str().unwrap()) {
             Ok(v) => json!({"kind": "ok", "value": from_var(&v)}),
